@@ -65,8 +65,12 @@ Isolated == \A e \in served : e.used = insts[e.inst].own
 DefaultEndpointsSafe == \A e \in served : ~insts[e.inst].relaxed => ~Resolves(e.used, e.kind)
 
 \* ---- Part 2: the corpus
-Positions  == {"text_unicode", "text_integer", "text_nested", "text_item", "attr_value"}
-Protocols  == {"xml", "soap11", "soap12"}
+\* anyxml_text: the request has an argument of type AnyXml (user code gets a tree); the attack is a whole DOCUMENT, DOCTYPE and
+\* all, sent as the character data of that argument (escaped): character data is not markup, nothing may parse it again
+Positions  == {"text_unicode", "text_integer", "text_nested", "text_item", "attr_value", "anyxml_text"}
+\* "schema": not a request at all - an XML Schema DOCUMENT given to the schema reader (spyne.util.xml.parse_schema_string, the
+\* interface's XmlSchemaParser): reading a document never makes the process open a file or a connection the document names
+Protocols  == {"xml", "soap11", "soap12", "schema"}
 Transports == {"wsgi", "base"}
 \* how the request is framed: plain; transport charset + encoding declaration; as the root part of a multipart/related body
 \* the validator the endpoint was configured with: none, or schema validation by lxml (the parser is the same: validation happens
@@ -74,9 +78,12 @@ Transports == {"wsgi", "base"}
 Validators == {"none", "lxml"}
 Framings   == {"plain", "charset_decl", "multipart", "ctrl_char"}     \* ctrl_char: a C0 control character (never legal in XML 1.0) in front of the payload
 Applies(a) == /\ (a.framing = "multipart" => a.transport = "wsgi" /\ a.prot # "xml")
-              /\ (a.kind \in Bombs \ {"attrs_50000"} => a.pos \in {"text_unicode", "text_nested"})       \* one bomb is enough per document
+              /\ (a.kind \in Bombs \ {"attrs_50000"} => a.pos \in {"text_unicode", "text_nested", "anyxml_text"})       \* one bomb is enough per document
               /\ (a.kind = "attrs_50000" => a.pos = "attr_value")
               /\ (a.kind \in {"ext_dtd_file", "ext_dtd_http", "ext_param_file", "ext_param_http"} => a.pos \in {"text_unicode", "attr_value"})   \* these live in the prolog (what they declare may show in a text or in an attribute)
+              /\ (a.prot = "schema" => a.kind \in {"ext_dtd_file", "ext_dtd_http", "ext_param_file", "ext_param_http", "ext_general_file", "ext_general_http"}
+                                         /\ a.pos = "text_unicode" /\ a.transport = "base" /\ a.framing = "plain" /\ a.validator = "none")
+              /\ (a.pos = "anyxml_text" => a.kind \in {"internal_entity", "ext_general_file", "ext_general_http", "laughs_3x4"} /\ a.framing = "plain")
               /\ (a.kind \in HrefBombs => a.prot # "xml" /\ a.pos = "text_nested" /\ a.framing = "plain")
               /\ (a.validator = "lxml" => a.kind \in External \cup Internal /\ a.framing = "plain")
 Attacks == {a \in [kind : Kinds, pos : Positions, prot : Protocols, transport : Transports, framing : Framings, validator : Validators] : Applies(a)}
